@@ -66,6 +66,27 @@ CHECKS = {
     "C36": ("exploration", "proptest call sequences resolved into a line program; differential: ASan+UBSan+LSan C driver subprocess vs the same operations on AutoCommit; thorough adds a valgrind sample",
             "Generated sequences over document, map, list, text, mark, change, cursor, sync and result/item calls; every result read completely through the item API with byte spans copied out and freed at generated later points; oracle = sanitizer-clean driver AND transcript equal to the Rust API's.",
             "Driver links the debug build of automerge-c. Error message texts are not compared. Invalid handles are never generated.", "3/C36, 2.11"),
+    "C19": ("exploration", "proptest histories and sync sessions; encode/decode round-trip and cross-replica resolution oracle",
+            "Object ids, cursors, actor ids, change hashes, sync messages and states round-trip; decoded ids/cursors resolve to the same object/element in a document with a different actor table.",
+            "ExId equality ignores the actor-index hint by design.", "3/C19"),
+    "C23": ("exploration", "proptest hash sets and generated/degenerate filter parameters; membership and no-panic oracle",
+            "No false negatives before and after encode/decode; every decodable filter (incl. zero bits per entry, zero/huge probes) answers contains_hash with a bool.",
+            "Resource behaviour of hostile parameters is C17's subject (the fix bounds probes by the number of bits).", "3/C23"),
+    "C24": ("exploration", "proptest text programs under all four encodings; per-step invariant battery on lengths, spans, element boundaries, cursors and marks",
+            "length == width(text), spans concatenate to text, element offsets on character boundaries, cursor round-trips, marks()/get_marks()/spans() agree — after every step and at historical heads.",
+            "Mid-character indexes not asserted. Grapheme clusters spanning elements are a known finding.", "3/C24"),
+    "C25": ("exploration", "proptest text/mark programs vs the Peritext reading of the decoded op set (RefDoc) + expand-boundary metamorphic probes",
+            "Per-position marking equals the independent reading on every replica, merged, reloaded and historical; insertion at a lone mark boundary is covered iff the expand flag says so.",
+            "Coinciding boundaries of several marks are not probed (order-dependent by design).", "3/C25"),
+    "C26": ("exploration", "proptest list/text programs; held cursors resolved everywhere and compared with an independent insertion-chain oracle (RefDoc)",
+            "Both move modes, deleted and overwritten elements, other replicas, historical heads, uncovered ops must error.",
+            "Cursors taken on ops that are later rolled back are not held.", "3/C26"),
+    "C34": ("exploration", "proptest stateful edit sequences over 31 hexane column types vs a Vec model with the full read API compared after every edit",
+            "Model-based check of Column/PrefixColumn/DeltaColumn/RawColumn under splice/insert/remove/push/truncate/clear/splice_runs/edit cursors/copy_ranges with small slab budgets.",
+            "Documented preconditions respected. Three known findings (delta find_by_value at the domain top, find_by_value(None), transient aggregate overflow) are steered away from and counted.", "3/C34"),
+    "C35": ("exploration", "proptest save/load round trips of C34-built columns + random bytes, hostile run streams and structure-aware mutations offered to 31 load entry points",
+            "load(save(col)) equal; load of arbitrary bytes returns Ok/Err without panic; whatever loads is internally consistent, valid UTF-8 and re-saves to loadable bytes.",
+            "Verdict profile has overflow checks on. One known finding (slab-budget-dependent delta load).", "3/C35, 2.7"),
 }
 
 PENDING = {}
